@@ -65,7 +65,7 @@ fforms! {
     SumOwned: All; SumRef: All; ProductOwned: All; ProductRef: All; ZeroizeThenAdd: All;
     FDouble: ArkOnly; FDoubleInPlace: ArkOnly; FNegInPlace: ArkOnly; FSquare: ArkOnly; FSquareInPlace: ArkOnly;
     FInverse: ArkOnly; FInverseInPlace: ArkOnly; FPow: ArkOnly; FSumOfProducts: ArkOnly; FFrobenius: ArkOnly;
-    FZeroOne: ArkOnly; FBasePrime: ArkOnly; FBatchInverse: ArkOnly; FLegendreSqrt: ArkOnly;
+    FZeroOne: ArkOnly; FPowWithTable: ArkOnly; FBasePrime: ArkOnly; FBatchInverse: ArkOnly; FLegendreSqrt: ArkOnly;
     Power: FqOnly; CondSelect: FqOnly; CondAssign: FqOnly; CondSwap: FqOnly; CtEq: FqOnly;
 }
 
@@ -184,7 +184,7 @@ pub fn model_step(f: &Fld, acc: &N, s: &Step) -> MOut {
         SumOwned | SumRef => MOut::Val(items.iter().fold(N::zero(), |a, b| f.add(&a, b))),
         ProductOwned | ProductRef => MOut::Val(items.iter().fold(N::one(), |a, b| f.mul(&a, b))),
         FDouble | FDoubleInPlace => MOut::Val(f.add(acc, acc)),
-        FPow | Power => MOut::Val(f.pow(acc, &crate::api::int_of_limbs(&s.limbs))),
+        FPow | Power | FPowWithTable => MOut::Val(f.pow(acc, &crate::api::int_of_limbs(&s.limbs))),
         FSumOfProducts => {
             let n = 1 + (s.limbs.len() % 5);
             let a = [acc.clone(), y.clone(), x.clone(), acc.clone(), y.clone()];
@@ -382,6 +382,26 @@ macro_rules! ark_forms {
                 let mut a = acc;
                 a.frobenius_map_in_place(3);
                 Some(Out::Val(a))
+            }
+            FPowWithTable => {
+                // a table of exactly as many squarings as the exponent has bits (plus 0..=2 spare entries), the
+                // exponent given with its zero high limbs; one entry too few must give None
+                let e = crate::api::int_of_limbs($limbs);
+                let bits = e.bits() as usize;
+                let spare = $limbs.len() % 3;
+                let mut table: Vec<$T> = Vec::with_capacity(bits + spare);
+                let mut p = acc;
+                for _ in 0..bits + spare {
+                    table.push(p);
+                    p = p.square();
+                }
+                let got = <$T as Field>::pow_with_table(&table, $limbs);
+                let short = if bits > 0 { <$T as Field>::pow_with_table(&table[..bits - 1], $limbs) } else { None };
+                match got {
+                    Some(v) if bits == 0 || short.is_none() => Some(Out::Val(v)),
+                    Some(_) => Some(Out::Bad("pow_with_table returns a value although a needed power is missing from the table".into())),
+                    None => Some(Out::Bad(format!("pow_with_table returns None although the table holds all {bits} powers the exponent needs"))),
+                }
             }
             FBasePrime => {
                 // the prime field is its own base prime field: all of these are the identity / plain products
@@ -793,7 +813,7 @@ impl Property for C10 {
                 }
                 for form in forms_for(bk, f) {
                     for (a, b) in &pairs {
-                        if matches!(form, FForm::FPow | FForm::Power) {
+                        if matches!(form, FForm::FPow | FForm::Power | FForm::FPowWithTable) {
                             for e in &exps {
                                 v.push(Case { bk, f, init: Num(a.clone()), steps: vec![Step { form, x: Num(b.clone()), y: Num(a.clone()), limbs: e.clone(), n: 3, flag: true, rel: 0, rk: 0, rv: 0 }] });
                             }
